@@ -93,7 +93,8 @@ def stepS (w : WorldS K) : OpS K → WorldS K × Rec K
       if pre && !d.isEmpty then
         let r := s.draw fresh
         match setupEntries space true r.1 d with
-        | .error e => (w, ⟨some cid, .failed e, none⟩)
+        -- the sampler HAS been asked (and a static one has cached the set) before the pre-evaluation fails
+        | .error e => (setSampler w sid r.2.2, ⟨some cid, .failed e, some r.1⟩)
         | .ok own =>
           (setCondS (setSampler w sid r.2.2) cid ⟨{ spec with dataFns := own }, dictRef, space, sid⟩,
             ⟨some cid, .constructed, some r.1⟩)
